@@ -306,7 +306,7 @@ pub fn c12(ctx: &CheckCtx) -> i32 {
          distinct by (query, argument map).",
     );
     report.assume("enum-valued arguments are not generated (documented unsupported)");
-    let cases = ctx.cases(150_000, 2_000_000);
+    let cases = ctx.cases(500_000, 5_000_000);
     let res = search(ctx, "c12", cases, WORLD_MIN_LEN + 40, WORLD_MAX_LEN + 40, |b, s, counting| c12_case(b, s, counting, &cfg));
     report.absorb(res, &|b| render_world_case(&b[40.min(b.len())..], &cfg));
     report.finish()
@@ -353,6 +353,7 @@ pub fn c15_case_with(bytes: &[u8], stats: &mut Stats, counting: bool, cfg: &GenC
     #[allow(clippy::arc_with_non_send_sync)]
     let direct = engine::execute(Arc::new(counting_adapter), compiled.iq.clone(), args.clone(), ROW_LIMIT);
     let direct_rows = match direct {
+        ExecOutcome::Budget => return Verdict::Discard("too-much-work".into()),
         ExecOutcome::Rows(r) => r,
         ExecOutcome::ArgError(_) => return Verdict::Discard("args-rejected(C12)".into()),
         ExecOutcome::Panic(..) => return Verdict::Discard("engine-panic(C09)".into()),
@@ -388,6 +389,7 @@ pub fn c15_case_with(bytes: &[u8], stats: &mut Stats, counting: bool, cfg: &GenC
     });
     let (traced_rows, trace, (read_ahead_events, eager_fills, polls_after_exhaustion)) = match traced {
         Ok(x) => x,
+        Err(p) if p.is_budget() => return Verdict::Discard("too-much-work".into()),
         Err(p) => {
             return Verdict::Fail {
                 sig: format!("c15:traced-run-panicked|{}|{}", p.file(), first_line(&p.message)),
@@ -493,12 +495,12 @@ pub fn c15(ctx: &CheckCtx) -> i32 {
          the schedule actually made a resolver pull >= 2 contexts before its first output).",
     );
     report.assume("traces are serialised with RON (the repo's own format); JSON cannot represent tuple map keys");
-    let cases = ctx.cases(60_000, 600_000);
+    let cases = ctx.cases(80_000, 800_000);
     let res = search(ctx, "c15", cases, WORLD_MIN_LEN, WORLD_MAX_LEN, |b, s, counting| c15_case(b, s, counting, &cfg));
     report.absorb(res, &|b| render_world_case(&b[1.min(b.len())..], &cfg));
     // the same property over adapters that read ahead (order-preserving schedules of the C02 wrapper): the trace then holds
     // several inputs of one resolver call before its first output, which the replay side has to queue
-    let cases = ctx.cases(30_000, 300_000);
+    let cases = ctx.cases(50_000, 500_000);
     let res = search(ctx, "c15-read-ahead", cases, WORLD_MIN_LEN + 100, WORLD_MAX_LEN + 300, |b, s, counting| {
         c15_case_with(b, s, counting, &cfg, C15_SCHED_LEN, false)
     });
@@ -575,6 +577,7 @@ pub fn c14_digest(bytes: &[u8], cfg: &GenConfig) -> (u64, bool, String) {
             acc.push_str(&format!("{:?}", compiled.iq.outputs));
             let rec = run_recorded(&case, compiled.iq.clone());
             match &rec.outcome {
+                ExecOutcome::Budget => acc.push_str("work budget exhausted"),
                 ExecOutcome::Rows(r) => acc.push_str(&format!("{r:?}")),
                 ExecOutcome::ArgError(e) => acc.push_str(e),
                 ExecOutcome::Panic(p, n) => acc.push_str(&format!("panic {} after {n}", p.message)),
@@ -635,7 +638,7 @@ pub fn c14(ctx: &CheckCtx) -> i32 {
          separately spawned processes and compared line by line. Non-trivial: error with several sub-errors, or schema with >= 5 \
          types and a query touching >= 3 vertices; distinct by input text.",
     );
-    let cases = ctx.cases(16_000, 400_000);
+    let cases = ctx.cases(40_000, 600_000);
     let res = search(ctx, "c14", cases, WORLD_MIN_LEN, WORLD_MAX_LEN, |b, s, counting| c14_inprocess_case(b, s, counting, &cfg));
     report.absorb(res, &|b| json!({"input": c14_digest(b, &cfg).2}));
     // dedicated probe for the listed finding excluded above
@@ -654,7 +657,7 @@ pub fn c14(ctx: &CheckCtx) -> i32 {
         }
     }
     // cross-process part
-    let n = ctx.cases(4_000, 100_000) as usize;
+    let n = ctx.cases(8_000, 150_000) as usize;
     let procs = if matches!(ctx.tier, crate::runner::Tier::Thorough) { 5 } else { 3 };
     let exe = std::env::current_exe().expect("current exe");
     let mut outputs: Vec<String> = vec![];
